@@ -56,25 +56,25 @@ def run(chk):
         sk = facts["skeleton"]
         chk.notes.append("observed skeleton: " + json.dumps(sk))
         chk.notes.append("memoised functions (entries, entries holding mutable objects): " + json.dumps(facts["memo_functions"]))
-        for field, allowed in EXPECT.items():
-            if sk.get(field) not in allowed:
-                detail = ""
-                if field == "memo_written" and facts["memo_written"]:
-                    detail = " by a write into a value of %s" % facts["memo_written"][0][0]
-                if field == "memo_stale" and facts["memo_stale"]:
-                    detail = ": %s" % facts["memo_stale"][0][0]
-                chk.violation("skeleton:" + field,
-                              "observed skeleton fact %s = %r%s, but formulate_pure assumes one of %r" % (field, sk.get(field), detail, list(allowed)),
-                              {"case": {"kind": "skeleton", "field": field, "expected": sk.get(field) if False else allowed[0],
-                                        "observed": sk.get(field), "facts": {k: facts[k] for k in ("define", "reset", "reregister")},
-                                        "memo_written": facts["memo_written"][:1], "memo_stale": facts["memo_stale"][:1]},
-                               "search": "search_C06.py"}, True)
+        bad_fields = [f for f, allowed in EXPECT.items() if sk.get(f) not in allowed]
+        if bad_fields:
+            # a hypothesis of formulate_pure is not what the implementation does.  This is a broken proof
+            # obligation (observed_well_behaved), not yet a failing input: the history search below decides.
+            detail = {"deviating_skeleton_fields": {f: sk.get(f) for f in bad_fields},
+                      "define_symbols": facts["define"], "reset": facts["reset"], "reregister": facts["reregister"],
+                      "memo_written": [[x[0], x[1]["ops"]] for x in facts["memo_written"][:1]],
+                      "memo_stale": [[x[0], x[1]["ops"]] for x in facts["memo_stale"][:1]]}
+            chk.notes.append("skeleton deviates from the hypotheses of formulate_pure: " + json.dumps(detail)[:1500])
+            if not chk.broken:
+                chk.broken.append({"file": "Skel_C06.v", "item": "observed_well_behaved",
+                                   "coqc_output": json.dumps(detail)[:1500]})
 
     thorough = chk.tier == "thorough"
-    n = 220 if thorough else 12
+    n = 220 if thorough else 8
     if not proofs_ok:
         n = max(n, 48)  # failing-input search: go deeper
-    rc, doc, out = chk.bridge_json("search_C06.py", [str(chk.seed), str(n), "--maxops", "20" if thorough else "12"],
+    rc, doc, out = chk.bridge_json("search_C06.py", [str(chk.seed), str(n), "--maxops", "20" if thorough else "12"]
+                                   + (["--full-seed-matrix"] if thorough else []),
                                    timeout=3000)
     chk.checker_cmds.append("coqc -Q coq/theories AV -Q build/C06 AVchk Cases_C06_k.v (vm_compute of Toy.t_show under the observed skeleton)")
     if doc is None:
